@@ -327,6 +327,9 @@ func (cs *Contracts) LoadContractText(text, path, pkgPath string) error {
 			if len(fields) < 4 || fields[1] != "var" {
 				return fmt.Errorf("%s:%d: ghost var name type", base, it.n)
 			}
+			if prev := cs.Ghosts[fields[2]]; prev != nil && (prev.PkgPath != pkgPath || prev.Type != strings.Join(fields[3:], " ")) {
+				return fmt.Errorf("%s:%d: ghost var %s is already declared in %s (ghost names are global)", base, it.n, fields[2], prev.PkgPath)
+			}
 			cs.Ghosts[fields[2]] = &GhostVar{Name: fields[2], Type: strings.Join(fields[3:], " "), PkgPath: pkgPath}
 			cur, curLemma = nil, nil
 		case "spec":
@@ -344,6 +347,9 @@ func (cs *Contracts) LoadContractText(text, path, pkgPath string) error {
 					return err
 				}
 				sf.Body = c
+			}
+			if prev := cs.Specs[sf.Name]; prev != nil && strings.Join(strings.Fields(prev.Sig), " ") != strings.Join(strings.Fields(sf.Sig), " ") {
+				return fmt.Errorf("%s:%d: spec func %s is declared differently in %s (spec function names are global)", base, it.n, sf.Name, prev.PkgPath)
 			}
 			cs.Specs[sf.Name] = sf
 			cur, curLemma = nil, nil
